@@ -792,6 +792,7 @@ def run(ctx, model):
         if len(ctx.violations) >= 400 or len(ctx.corr_breaks) >= 40:
             break
     buffered_display(ctx, tup, cov)
+    highlevel_tracking(ctx, cov)
     report_extra_classes(ctx)
     return cov
 
@@ -831,6 +832,100 @@ def buffered_display(ctx, tup, cov):
             break
 
 
+def highlevel_tracking(ctx, cov):
+    """TupimageTerminal.display_only (relative, with line feeds, at an absolute position — also one whose rectangle runs past
+    the right or the bottom edge — and every final cursor position) mixed with cursor moves and text on the underlying
+    GraphicsTerminal: after every call, whenever the terminal object claims to know the cursor position it is the Spec
+    terminal's.  Oracle only.  Runs in a pty sandbox (TupimageTerminal opens /dev/tty) around the rig's own pty."""
+    work = ctx.work
+    rng = ctx.rng
+    hists = []
+    for _ in range(ctx.pick(60, 1200)):
+        W, H = rng.choice([(80, 24), (40, 12), (20, 10)])
+        ops = []
+        for _ in range(rng.randrange(3, 10)):
+            k = rng.random()
+            if k < 0.5:
+                w, hh = rng.choice([1, 3, 7, 20]), rng.choice([1, 2, 5])
+                mode = rng.choice(["rel", "rel", "lf", "abs", "abs", "abs"])
+                ops.append({"op": "display", "w": w, "h": hh, "mode": mode,
+                            "abs": [rng.choice([0, 1, W - w, W - w + 3, W - 1, W // 2]), rng.choice([0, 1, H - hh, H - 1, H // 2])] if mode == "abs" else None,
+                            "final": rng.choice([None, "top-left", "top-right", "bottom-left", "bottom-right"]), "id": rng.choice([5, 0x1234, 0x01000007])})
+            elif k < 0.65:
+                ops.append({"op": "abs", "c": rng.choice([0, 3, W - 1]), "r": rng.choice([0, 2, H - 1])})
+            elif k < 0.8:
+                ops.append({"op": "mv", "r": rng.choice([None, 2, W]), "d": rng.choice([None, 1, H])})
+            elif k < 0.9:
+                ops.append({"op": "wr", "b": rng.choice([b"hello", b"x" * (W - 2), b"\r\n"]).hex()})
+            else:
+                ops.append({"op": "qt"})
+        hists.append({"W": W, "H": H, "ops": ops})
+
+    def child():
+        common.scrub_process_env()
+        os.environ["HOME"] = work
+        os.environ["XDG_STATE_HOME"] = os.path.join(work, "state")
+        os.environ["XDG_CONFIG_HOME"] = os.path.join(work, "config")
+        import tupimage
+        out = []
+        for hi, h in enumerate(hists):
+            rig = Rig(h["W"], h["H"])
+            recs = []
+            try:
+                t = tupimage.TupimageTerminal(out_command=rig.out_command, out_display=rig.out_display, in_response=rig.in_response,
+                                              id_database=os.path.join(work, "c16-hl.db"), config="DEFAULT", num_tmux_layers=0, redetect_terminal=False)
+                for o in h["ops"]:
+                    res = "ok"
+                    try:
+                        if o["op"] == "display":
+                            kw = {}
+                            if o["final"]:
+                                kw["final_cursor_pos"] = o["final"]
+                            if o["mode"] == "abs":
+                                kw["abs_pos"] = tuple(o["abs"])
+                            if o["mode"] == "lf":
+                                kw["use_line_feeds"] = True
+                            t.display_only(o["id"], start_col=0, start_row=0, end_col=o["w"], end_row=o["h"], **kw)
+                        elif o["op"] == "abs":
+                            t.term.move_cursor_abs(col=o["c"], row=o["r"])
+                        elif o["op"] == "mv":
+                            kw = {k2: v for k2, v in (("right", o["r"]), ("down", o["d"])) if v is not None}
+                            t.term.move_cursor(**kw)
+                        elif o["op"] == "wr":
+                            t.term.write(bytes.fromhex(o["b"]))
+                        else:
+                            t.term.get_cursor_position_tracked(timeout=0.7)
+                    except (ValueError, IndexError, TimeoutError) as e:
+                        res = type(e).__name__
+                    rig.out_display.flush()
+                    synced = rig.sync()
+                    tr = t.term.tracked_cursor_position
+                    recs.append({"tracked": None if tr is None else [tr[0], tr[1]], "cursor": [rig.vt.x, rig.vt.y], "synced": synced, "res": res})
+                t.id_manager.close()
+            finally:
+                rig.close()
+            out.append(recs)
+        return out
+
+    r = common.in_pty(child, timeout=900)
+    if "ok" not in r:
+        ctx.corr_breaks.append({"what": "high-level tracking histories failed in the pty sandbox", "error": {k: v for k, v in r.items() if k != "tty"}})
+        return
+    for h, recs in zip(hists, r["ok"]):
+        cov.add({"highlevel": [h["W"], h["H"]], "ops": h["ops"][:4]}, klass="highlevel/display_only-history")
+        for i, (o, rec) in enumerate(zip(h["ops"], recs)):
+            cov.bump("highlevel/observed-" + ("known" if rec["tracked"] is not None else "unknown"))
+            if not rec["synced"]:
+                ctx.corr_breaks.append({"what": "terminal thread did not consume the output in time (high-level histories)", "case": {"ops": h["ops"][:i + 1]}})
+                break
+            if rec["tracked"] is not None and rec["tracked"] != rec["cursor"]:
+                ctx.violations.append({"signature": {"class": "highlevel/" + o["op"] + ("/" + o["mode"] if o["op"] == "display" else "")},
+                                       "what": f"TupimageTerminal on a {h['W']}x{h['H']} screen, after {o} (call #{i}) the terminal object believes the cursor is at {rec['tracked']}, "
+                                               f"the terminal's cursor is at {rec['cursor']}",
+                                       "case": {"kind": "highlevel-history", "W": h["W"], "H": h["H"], "ops": h["ops"][:i + 1]}})
+                break
+
+
 def report_extra_classes(ctx):
     """./check writes a replay for the first three distinct violation signatures only; every further defect class gets
     its replay file and VIOLATION line here, so that each class is reported with a concrete history."""
@@ -849,6 +944,12 @@ def report_extra_classes(ctx):
 
 def replay(ctx, model, rec):
     case = rec["case"]
+    if case.get("kind") == "highlevel-history":
+        n0 = len(ctx.violations)
+        highlevel_tracking(ctx, common.Coverage("replay"))
+        mine = ctx.violations[n0:]
+        del ctx.violations[n0:]
+        return {"violates": bool(mine), "violations": [v["what"] for v in mine][:3], "note": "the generated histories of this seed are re-run"}
     common.scrub_process_env()
     tup = common.import_impl()
     c = {"W": case["W"], "H": case["H"], "scroll": case["scroll"], "ops": case["ops"], "buffered": case.get("buffered", False)}
